@@ -68,6 +68,11 @@ class C19(Prop):
         self.K = None
         self.LOG = []
 
+    def extract_tables(self, repo):
+        """tie: iterate_tests / filter_by_ids / _flatten_tests / sorted_tests / the --load-list block, re-read from the tree"""
+        from harness import pysuite2lean
+        return {'TTV/Generated/SuiteSrc.lean': pysuite2lean.generate(repo)}
+
     def classes(self):
         if self.K is None:
             self.K = _classes()
